@@ -67,7 +67,8 @@ def case_from_tlc(obj, h, g):
     if g.get("pid") == "C07" or int(h[:2], 16) % 4 == 0:
         idx = list(range(1, n + 1))
         runs = [idx, idx[::-1], idx[:1], idx]
-    return {"case": "tlc-" + h, "files": files, "layout": int(h[:6], 16) % 10000, "runs": runs}
+    fresh = [False, True, True, False] if runs else []
+    return {"case": "tlc-" + h, "files": files, "layout": int(h[:6], 16) % 10000, "runs": runs, "fresh": fresh}
 
 
 def nontrivial(rec):
